@@ -28,6 +28,7 @@ Bad == F("Correlated", {i \in Lines : ~CorrelatedL(i)})
   \cup F("NothingElseDelivered", {i \in Steps : ~QuietP(St(i-1), St(i), Tr[i].act)})
   \cup F("TimeoutOnTime", {i \in Lines : \E k \in 1..Len(Tr[i].st.lat) : Tr[i].st.lat[k] # -1 /\ (Tr[i].st.lat[k] < ReqTimeoutMs - 400 \/ Tr[i].st.lat[k] > ReqTimeoutMs + 1000)})
   \cup F("RegisterFresh", {i \in Lines : ~Tr[i].st.regnew})
+  \cup F("FromDeclaredId", {i \in Steps : ~ReadyRaceP(St(i-1), St(i), Tr[i].act)})
   \cup F("BurstInOrder", {i \in Steps : ~BurstP(St(i-1), St(i), Tr[i].act)})
   \cup F("SubscriptionsDirect", {i \in Steps : ~SubscribeP(St(i-1), St(i), Tr[i].act)})
   \cup F("HandlersAgree", {i \in Lines : ~Tr[i].st.sameh})
